@@ -434,3 +434,15 @@ Fixpoint dmap_run (depth : nat) (m : dmap) (ops : list (list (list bytes) * dop)
   | [] => []
   | (ch, o) :: r => let '(m1, x) := dmap_step depth m ch o in x :: dmap_run depth m1 r
   end.
+
+(* the store / the list after a history (a rollback target: the harness resets the store to such a state) *)
+Fixpoint arr_exec (sizeK : bytes) (elemK : Z -> bytes) (s : kvstore) (ops : list aop) : kvstore :=
+  match ops with
+  | [] => s
+  | o :: r => arr_exec sizeK elemK (fst (arr_step sizeK elemK s o)) r
+  end.
+Fixpoint lst_exec (l : list bytes) (ops : list aop) : list bytes :=
+  match ops with
+  | [] => l
+  | o :: r => lst_exec (fst (lst_step l o)) r
+  end.
